@@ -15,6 +15,8 @@ import HawkModel.Drv.Ctx
 import HawkModel.Drv.ReadIo
 import HawkModel.Drv.Crash
 import HawkModel.Drv.Deparse
+import HawkModel.Drv.Fmt
+import HawkModel.Drv.Expr
 
 def main (args : List String) : IO UInt32 := do
   match args with
@@ -35,4 +37,6 @@ def main (args : List String) : IO UInt32 := do
   | "readio" :: _ => Hawk.Drv.ReadIo.main; return 0
   | "crash" :: _ => Hawk.Drv.Crash.main; return 0
   | "deparse" :: _ => Hawk.Drv.Deparse.main; return 0
+  | "fmt" :: _ => Hawk.Drv.Fmt.main; return 0
+  | "expr" :: _ => Hawk.Drv.Expr.main; return 0
   | _ => IO.eprintln "usage: hawkdrv <area>"; return 2
